@@ -1,3 +1,4 @@
+import os
 from checks.generic import standard
 
 THEOREMS = ["c06_gate_sound", "c06_identity_real", "c06_never_denied", "c06_never_outside", "c06_csrf",
@@ -19,4 +20,6 @@ def run(ctx):
         assumptions=["TLS chain verification is done by crypto/tls; the harness supplies VerifiedChains built from certificates really signed by the state's CA keys",
                      "the password attempt limiter is configured wide open (limiter_ok = true in every case)"],
         unproved=["handler steps after admission (parameter validation, storage) are one environment bit per request in the route model; the effects of /u2f/RegisterResponse, /webauthn/RegisterFinish, /webauthn/AuthFinish, /u2f/SignResponse, /totp/ValidateNew, /idp/oauth2/token, /userinfo, the federated callback and Okta poll are not provoked by the harness (no authenticator / provider fake), only their refusal is observed"],
-        timeout=1500)
+        timeout=1500,
+        # the probes restore the profile tables thousands of times: keep the scratch database off the disk
+        env=({"TMPDIR": "/dev/shm"} if os.path.isdir("/dev/shm") and os.access("/dev/shm", os.W_OK) else None))
